@@ -35,7 +35,28 @@ class LiteDRAMNativePortCDC(Module):
             depth   = cmd_depth,
             with_common_rst = False)
         self.submodules += cmd_cdc
-        self.submodules += stream.Pipeline(port_from.cmd, cmd_cdc, port_to.cmd)
+        # The core returns read data without back-pressure (rdata.ready is ignored by the crossbar): never have
+        # more reads in flight than the read-data FIFO can hold, or words are lost when the user stalls.
+        cmd_ok = Signal(reset=1)
+        if mode in ["read", "both"]:
+            rd_credits = Signal(max=rdata_depth + 1, reset=rdata_depth)
+            rd_cmd     = Signal()
+            rd_issue   = Signal()
+            rd_done    = Signal()
+            self.comb += [
+                rd_cmd.eq(1 if mode == "read" else ~port_from.cmd.we),
+                cmd_ok.eq(~rd_cmd | (rd_credits != 0)),
+                rd_issue.eq(port_from.cmd.valid & port_from.cmd.ready & rd_cmd),
+                rd_done.eq(port_from.rdata.valid & port_from.rdata.ready),
+            ]
+            sync_from = getattr(self.sync, port_from.clock_domain)
+            sync_from += rd_credits.eq(rd_credits - rd_issue + rd_done)
+        self.comb += [
+            port_from.cmd.connect(cmd_cdc.sink, omit={"valid", "ready"}),
+            cmd_cdc.sink.valid.eq(port_from.cmd.valid & cmd_ok),
+            port_from.cmd.ready.eq(cmd_cdc.sink.ready & cmd_ok),
+            cmd_cdc.source.connect(port_to.cmd),
+        ]
 
         if mode in ["write", "both"]:
             wdata_cdc = stream.ClockDomainCrossing(
